@@ -41,6 +41,7 @@ type Cfg struct {
 	WFault  bool   `json:"wfault"` // the schedule may take the link down: writes fail while it is down
 	ErrKind int    `json:"-"`      // what a failed write returns: 0 plain error, 1 temporary net.Error, 2 timeout net.Error
 	Dest    int    `json:"-"`      // destination variant (broadcast / unicast / scoped link-local / scoped multicast)
+	BigReq  int    `json:"-"`      // octets of vendor information added to the request (0: none): requests beyond one Ethernet frame
 	Raw     bool   `json:"-"`      // DHCPv4 only: the client runs over its raw-socket layer (BroadcastRawUDPConn): datagrams arrive and leave as IPv4/UDP frames
 }
 
